@@ -14,7 +14,7 @@
  *             stack, LAST state iff the stack became empty, empty() = abstract emptiness at its
  *             load, WOULDBLOCK only from non-blocking calls that saw an incomplete push or lost a
  *             race;
- *   once      node life cycle: FREE -> OWNED -> IN -> (OWNED | LIMBO -> OWNED) [-> RETIRED] -> FREE:
+ *   once      node life cycle: FREE -> OWNED -> IN -> (POPPED | LIMBO -> POPPED) [-> RETIRED] -> FREE:
  *             every pushed node is handed out exactly once; nothing is left behind at the end;
  *   recycled  access monitor: no thread touches a FREE node or a node privately owned by another
  *             thread; a node is never re-pushed while RETIRED (before its grace period);
@@ -30,7 +30,7 @@
 #define OR_MAXN 64
 #define OR_MAXT 64
 
-enum { NS_FREE, NS_OWNED, NS_IN, NS_LIMBO, NS_RETIRED };
+enum { NS_FREE, NS_OWNED, NS_IN, NS_LIMBO, NS_RETIRED, NS_POPPED };
 enum { OP_NONE, OP_PUSH, OP_POP, OP_POPALL, OP_NEXT, OP_EMPTY };
 enum { SCH_MUTEX, SCH_SINGLE, SCH_RCU };
 
@@ -112,12 +112,12 @@ static void or_event(int t, int argc, char **w)
 		or_n[k].st = NS_OWNED; or_n[k].owner = t;
 	} else if (!strcmp(op, "FREE")) {
 		k = or_node_of(w[1]);
-		if (!((or_n[k].st == NS_OWNED || or_n[k].st == NS_RETIRED) && or_n[k].owner == t))
+		if (!((or_n[k].st == NS_OWNED || or_n[k].st == NS_RETIRED || (or_n[k].st == NS_POPPED && or_c.scheme != SCH_RCU)) && or_n[k].owner == t))
 			OR_FAIL("once", "T%d frees n%d in state %d owner T%d", t, k, or_n[k].st, or_n[k].owner);
 		or_n[k].st = NS_FREE;
 	} else if (!strcmp(op, "RETIRE")) {
 		k = or_node_of(w[1]);
-		if (!(or_n[k].st == NS_OWNED && or_n[k].owner == t)) OR_FAIL("once", "T%d retires n%d in state %d", t, k, or_n[k].st);
+		if (!(or_n[k].st == NS_POPPED && or_n[k].owner == t)) OR_FAIL("once", "T%d retires n%d in state %d", t, k, or_n[k].st);
 		or_n[k].st = NS_RETIRED;
 		or_n[k].owner = argc > 2 ? atoi(w[2]) : t;	/* handed to the reclaimer */
 	} else if (!strcmp(op, "INIT")) {
@@ -157,7 +157,7 @@ static void or_event(int t, int argc, char **w)
 				else if (strcmp(w[2], th->exp)) OR_FAIL("ret", "pop returned %s, linearised on %s", w[2], th->exp);
 				else if (argc > 3 && strcmp(w[3], "-") && th->exp_state >= 0 && atoi(w[3]) != th->exp_state)
 					OR_FAIL("ret", "pop of %s reported state %s, expected %d", w[2], w[3], th->exp_state);
-				if ((k = or_node_of(w[2])) >= 0) { or_n[k].st = NS_OWNED; or_n[k].owner = t; }
+				if ((k = or_node_of(w[2])) >= 0) { or_n[k].st = NS_POPPED; or_n[k].owner = t; }
 			}
 		} else if (!strcmp(w[1], "pop_all")) {
 			if (!th->lin) OR_FAIL("lifo", "pop_all returned without exchanging head");
@@ -173,7 +173,7 @@ static void or_event(int t, int argc, char **w)
 				or_tok(b, th->pos + 1 < th->nlist ? th->list[th->pos + 1] : -1);
 				if (th->pos + 1 >= th->nlist) snprintf(b, sizeof(b), "0");
 				if (strcmp(w[2], b)) OR_FAIL("lifo", "iteration after n%d returned %s, popped list continues with %s", k, w[2], b);
-				or_n[k].st = NS_OWNED; or_n[k].owner = t;
+				or_n[k].st = NS_POPPED; or_n[k].owner = t;
 				th->pos++;
 			}
 		} else if (!strcmp(w[1], "empty")) {
@@ -198,7 +198,8 @@ static void or_event(int t, int argc, char **w)
 		}
 	} else if ((!strcmp(op, "LD") || !strcmp(op, "PLD")) && (k = or_node_of(w[1])) >= 0) {
 		struct or_node *n = &or_n[k];
-		if (n->st == NS_FREE || (n->st == NS_OWNED && n->owner != t))
+		if (n->st == NS_FREE || (n->st == NS_OWNED && n->owner != t) ||
+		    (n->st == NS_POPPED && n->owner != t && or_c.scheme != SCH_RCU))
 			OR_FAIL("recycled", "T%d reads n%d.next while the node is %s", t, k, n->st == NS_FREE ? "free" : "privately owned by another thread");
 		or_succ(b, k, &known);
 		if (known) {
@@ -265,7 +266,7 @@ static void or_event(int t, int argc, char **w)
 				OR_FAIL("lifo", "pop of n%d installs head %s, the second node is %s (stale next: ABA)", k, w[3], b2);
 			or_na--; th->lin = 1; th->exp_state = or_na == 0;
 			or_tok(th->exp, k);
-			or_n[k].st = NS_OWNED; or_n[k].owner = t;
+			or_n[k].st = NS_POPPED; or_n[k].owner = t;
 			or_stats[1]++;
 		} else OR_FAIL("lifo", "cmpxchg on head outside push/pop");
 	}
@@ -300,4 +301,97 @@ static int oracle_check(const char *path, struct or_cfg cfg)
 			OR_FAIL("once", "n%d lost: still %s at the end", i, or_n[i].st == NS_IN ? "in the stack" : "in an unfinished popped list");
 	return or_fails;
 }
+
+/* ------------------------------------------------------------------------------------------------
+ * C17: solo runs.  The scenario defines, before including this file: STACK_C17, an enum of
+ * operation kinds, `kname[]`, `kbound[]` (own scheduling points of one complete operation started
+ * with the others frozen; also the bound of what remains from any point inside it) and
+ * `kwaitfree[]` (the bound holds under arbitrary interference).
+ * (a) self-solo: before an operation the thread freezes every other thread wherever it is, runs
+ *     the operation alone, counts its own steps and spin hints, unfreezes;
+ * (b) mid-operation solo: a freezer thread picks a victim that is *inside* a wait-free / lock-free /
+ *     non-blocking operation, freezes everybody else and lets the victim finish alone; the victim's
+ *     steps from the freeze to its return are bounded through the global step counter;
+ * (c) wait-free and non-blocking operations keep their bound under any interference and never
+ *     execute a spin hint: checked on every call.
+ * ---------------------------------------------------------------------------------------------- */
+#ifdef STACK_C17
+static int c17;
+static int c17_kind[OR_MAXT], c17_self[OR_MAXT];
+static unsigned long c17_s0[OR_MAXT], c17_r0[OR_MAXT];
+static int c17_mid_active, c17_mid_target, c17_stop;
+static unsigned long c17_mid_g0;
+static unsigned long c17_runs[2], c17_max[16], c17_midmax[16];
+
+static void c17_freeze_others(int keep)
+{
+	int i;
+	for (i = 1; i < vrt_nthreads(); i++)
+		if (i != vrt_self() && i != keep && !vrt_done(i)) vrt_freeze(i, 1);
+}
+
+static void c17_unfreeze_all(void)
+{
+	int i;
+	for (i = 1; i < vrt_nthreads(); i++) vrt_freeze(i, 0);
+}
+
+static void c17_op_begin(int kind)
+{
+	int me = vrt_self();
+	c17_self[me] = 0;
+	if (c17 && !c17_mid_active && vrt_rand() % 4 == 0) { c17_freeze_others(-1); c17_self[me] = 1; }
+	c17_s0[me] = vrt_mysteps(); c17_r0[me] = vrt_myrelax();
+	c17_kind[me] = kind;
+}
+
+static void c17_op_end(int kind)
+{
+	int me = vrt_self();
+	unsigned long ds = vrt_mysteps() - c17_s0[me], dr = vrt_myrelax() - c17_r0[me];
+	c17_kind[me] = -1;
+	if (dr)
+		vrt_fail("solo", "%s executed %lu spin hints / polls: it waited for another thread", kname[kind], dr);
+	if (kwaitfree[kind] && ds > kbound[kind])
+		vrt_fail("solo", "wait-free %s took %lu own steps, bound %lu", kname[kind], ds, kbound[kind]);
+	if (c17_self[me]) {
+		vrt_log("SOLO %s steps=%lu relax=%lu", kname[kind], ds, dr);
+		c17_runs[0]++;
+		if (ds > c17_max[kind]) c17_max[kind] = ds;
+		if (ds > kbound[kind])
+			vrt_fail("solo", "%s run solo (all other threads frozen) took %lu own steps, bound %lu", kname[kind], ds, kbound[kind]);
+		c17_unfreeze_all();
+		c17_self[me] = 0;
+	}
+	if (c17_mid_active && c17_mid_target == me) {
+		unsigned long g = vrt_steps() - c17_mid_g0;
+		vrt_log("SOLOMID %s steps=%lu", kname[kind], g);
+		c17_runs[1]++;
+		if (g > c17_midmax[kind]) c17_midmax[kind] = g;
+		if (g > kbound[kind] + 2)
+			vrt_fail("solo", "%s, all others frozen in the middle of it, needed %lu more steps, bound %lu", kname[kind], g, kbound[kind]);
+		c17_mid_active = 0;
+		c17_unfreeze_all();
+	}
+}
+
+static void *c17_freezer(void *arg)
+{
+	(void)arg;
+	while (!c17_stop) {
+		int cand[OR_MAXT], nc = 0, i;
+		vrt_sleep(3 + vrt_rand() % 25);
+		for (i = 1; i < vrt_nthreads(); i++)
+			if (i != vrt_self() && !vrt_done(i) && c17_kind[i] >= 0 && !c17_self[i]) cand[nc++] = i;
+		if (!nc || c17_stop) continue;
+		c17_mid_target = cand[vrt_rand() % nc];
+		c17_freeze_others(c17_mid_target);
+		c17_mid_g0 = vrt_steps();
+		c17_mid_active = 1;
+		while (c17_mid_active && !c17_stop)
+			vrt_sleep(400);
+	}
+	return NULL;
+}
+#endif
 #endif
